@@ -118,6 +118,15 @@ func (lens join[S, A, B]) Get(s *S) B {
 	return lens.b.Get(&va)
 }
 
+// atLeast asserts that n field names are given. Slicing attr[0:n] alone is not
+// enough: it succeeds on a shorter slice that has spare capacity and would
+// pick up whatever strings follow it in memory.
+func atLeast(attr []string, n int) {
+	if len(attr) < n {
+		panic(fmt.Errorf("invalid arguments: %d field names are required, %d given", n, len(attr)))
+	}
+}
+
 // ForProduct1 unfold 1 attribute of type T
 func ForProduct1[T, A any](attr ...string) Lens[T, A] {
 	var seq hseq.Seq[T]
@@ -143,6 +152,7 @@ func ForProduct2[T, A, B any](attr ...string) (
 	if len(attr) == 0 {
 		seq = hseq.New2[T, A, B]()
 	} else {
+		atLeast(attr, 2)
 		seq = hseq.New[T](attr[0:2]...)
 	}
 
@@ -163,6 +173,7 @@ func ForProduct3[T, A, B, C any](attr ...string) (
 	if len(attr) == 0 {
 		seq = hseq.New3[T, A, B, C]()
 	} else {
+		atLeast(attr, 3)
 		seq = hseq.New[T](attr[0:3]...)
 	}
 
@@ -185,6 +196,7 @@ func ForProduct4[T, A, B, C, D any](attr ...string) (
 	if len(attr) == 0 {
 		seq = hseq.New4[T, A, B, C, D]()
 	} else {
+		atLeast(attr, 4)
 		seq = hseq.New[T](attr[0:4]...)
 	}
 
@@ -209,6 +221,7 @@ func ForProduct5[T, A, B, C, D, E any](attr ...string) (
 	if len(attr) == 0 {
 		seq = hseq.New5[T, A, B, C, D, E]()
 	} else {
+		atLeast(attr, 5)
 		seq = hseq.New[T](attr[0:5]...)
 	}
 
@@ -235,6 +248,7 @@ func ForProduct6[T, A, B, C, D, E, F any](attr ...string) (
 	if len(attr) == 0 {
 		seq = hseq.New6[T, A, B, C, D, E, F]()
 	} else {
+		atLeast(attr, 6)
 		seq = hseq.New[T](attr[0:6]...)
 	}
 
@@ -263,6 +277,7 @@ func ForProduct7[T, A, B, C, D, E, F, G any](attr ...string) (
 	if len(attr) == 0 {
 		seq = hseq.New7[T, A, B, C, D, E, F, G]()
 	} else {
+		atLeast(attr, 7)
 		seq = hseq.New[T](attr[0:7]...)
 	}
 
@@ -293,6 +308,7 @@ func ForProduct8[T, A, B, C, D, E, F, G, H any](attr ...string) (
 	if len(attr) == 0 {
 		seq = hseq.New8[T, A, B, C, D, E, F, G, H]()
 	} else {
+		atLeast(attr, 8)
 		seq = hseq.New[T](attr[0:8]...)
 	}
 
@@ -325,6 +341,7 @@ func ForProduct9[T, A, B, C, D, E, F, G, H, I any](attr ...string) (
 	if len(attr) == 0 {
 		seq = hseq.New9[T, A, B, C, D, E, F, G, H, I]()
 	} else {
+		atLeast(attr, 9)
 		seq = hseq.New[T](attr[0:9]...)
 	}
 
